@@ -533,7 +533,10 @@ static const auto& xprograms() {
         xprog<NO_APPLY>("matmul_neg_A_M", 2, USE_A | USE_M, XB { auto A = view::alias(a, 0_ct); auto M = view::alias(m, 1_ct); return view::matmul(view::negative(A), M); }, HG { HGraph g; int a = g.leaf(0); int x = g.op("negative", {a}); int m = g.leaf(2); g.op("matmul", {x, m}); return g; }),
         xprog<ALL>("sub_a_neg_b", 2, USE_A | USE_B, XB { return view::subtract(a, view::negative(b)); }, HG { HGraph g; int a = g.leaf(0), b = g.leaf(1); int x = g.op("negative", {b}); g.op("subtract", {a, x}); return g; }),
         xprog<NO_APPLY>("sub_A_neg_B", 2, USE_A | USE_B, XB { auto A = view::alias(a, 0_ct); auto B = view::alias(b, 1_ct); return view::subtract(A, view::negative(B)); }, HG { HGraph g; int a = g.leaf(0), b = g.leaf(1); int x = g.op("negative", {b}); g.op("subtract", {a, x}); return g; }),
-        xprog<ALL>("flatten_broadcast_to_b", 2, USE_A | USE_B, XB { return view::flatten(view::broadcast_to(b, shape_il(a))); }, HG { HGraph g; int b = g.leaf(1); int x = g.op("broadcast_to", {b}); g.op("flatten", {x}); return g; })
+        xprog<ALL>("flatten_broadcast_to_b", 2, USE_A | USE_B, XB { return view::flatten(view::broadcast_to(b, shape_il(a))); }, HG { HGraph g; int b = g.leaf(1); int x = g.op("broadcast_to", {b}); g.op("flatten", {x}); return g; }),
+        // an EXPLICIT broadcast_to below a ufunc, to a shape the leaves would not broadcast to on their own (seeded change m14b: extraction skipped it together with the implicit wrapper)
+        xprog<ALL>("add_broadcast_to_b_b", 2, USE_A | USE_B, XB { return view::add(view::broadcast_to(b, shape_il(a)), b); }, HG { HGraph g; int b = g.leaf(1); int x = g.op("broadcast_to", {b}); int b2 = g.leaf(1); g.op("add", {x, b2}); return g; }),
+        xprog<ALL>("neg_broadcast_to_b", 2, USE_A | USE_B, XB { return view::negative(view::broadcast_to(b, shape_il(a))); }, HG { HGraph g; int b = g.leaf(1); int x = g.op("broadcast_to", {b}); g.op("negative", {x}); return g; })
 #else
         xprog<ALL>("reshape_add_mul_a_b_b", 3, USE_A | USE_B, XB { return view::reshape(view::add(view::multiply(a, b), b), flat_of(a)); }, HG { HGraph g; int a = g.leaf(0), b = g.leaf(1); int x = g.op("multiply", {a, b}); int b2 = g.leaf(1); int y = g.op("add", {x, b2}); g.op("reshape", {y}); return g; }),
         xprog<ALL>("sum_transpose_mul_a_b", 3, USE_A | USE_B | USE_AXIS, XB { return view::sum(view::transpose(view::multiply(a, b)), axis); }, HG { HGraph g; int a = g.leaf(0), b = g.leaf(1); int x = g.op("multiply", {a, b}); int y = g.op("transpose", {x}); g.op("sum", {y}); return g; }),
